@@ -6,6 +6,9 @@
  'out': 'cxx/base64_cxx.c',
  'pieces': [
   {'op': 'glue', 'text': '#include <stdint.h>\n#include <stddef.h>\n#include <stdbool.h>\n#include <string.h>\n#include <ctype.h>\n'
+                         '/* glibc implements isalnum as a macro over its locale table (__ctype_b_loc); call the FUNCTION isalnum instead, */\n'
+                         '/* i.e. the ISO C 7.4.1.1 behaviour in the "C" locale (cbmc library model; host libc in the native replay) */\n'
+                         '#undef isalnum\n'
                          '#include "c18_string_stub.h"\n'},
   # goto-instrument --apply-loop-contracts makes every mutable static nondeterministic, and `static const char *base64_charset` is a
   # mutable pointer (never written by base64.cpp).  The same two source lines are therefore copied twice: the first time under a macro
